@@ -1,6 +1,8 @@
 import sys
 import warnings
 
+from copy import deepcopy
+
 import numpy as np
 import pandas as pd
 
@@ -53,6 +55,15 @@ class Call:
         if not isinstance(other, type(self)):
             return False
         return self.call == other.call
+
+    def __deepcopy__(self, memo):
+        # The evaluation environment holds references to the caller's namespaces (modules included)
+        # which can't and shouldn't be copied. It is shared between the copies.
+        result = self.__class__.__new__(self.__class__)
+        memo[id(self)] = result
+        for key, value in self.__dict__.items():
+            setattr(result, key, value if key == "env" else deepcopy(value, memo))
+        return result
 
     def __repr__(self):
         return self.__str__()
